@@ -6,26 +6,26 @@ CONSTANTS
   K = 3
   Maj = 2
   MaxCalls = 1
-  MaxIoErr = 1
+  MaxIoErr = 0
   MaxAcqErr = 0
   MaxExtDel = 0
   MaxExpire = 0
-  MaxDisc = 0
+  MaxDisc = 1
   MaxSrcCancel = 0
   NoLoop = TRUE
   AsyncPush = FALSE
-  FixCancelFirst = FALSE
+  FixCancelFirst = TRUE
   FixRetryTimer = TRUE
   FixLocalHandoff = TRUE
   BugExtendNoToken = FALSE
   BugThreshold = FALSE
   BugIgnoreInval = FALSE
   BugLostByCause = FALSE
-  BugNilNoGate = FALSE
-  DiscParkedOnly = FALSE
+  BugNilNoGate = TRUE
+  DiscParkedOnly = TRUE
   Record = FALSE
   GenLen = 0
-INVARIANTS DoneBeforeRelease
+INVARIANTS NoLostWakeup
 
 
 CHECK_DEADLOCK FALSE
